@@ -76,6 +76,10 @@ def sources(tier, seed, ctx):
             srcs.append({'fn': 'pite', 'n': n, 'gen': False, 'add_outputs': add_outputs, 'host': _h(rng, 0.6)})
         srcs.append({'fn': 'pxor', 'n': n, 'gen': True, 'host': None})
         srcs.append({'fn': 'pite', 'n': n, 'gen': True, 'host': None})
+    # a third of the little-endian calls do not pass big_endian at all (the documented default is little-endian)
+    for j, s_ in enumerate(srcs):
+        if s_.get('big') is False and j % 3 == 0:
+            s_['big'] = None
     ctx['gen_note'] = f'{len(srcs)} generator calls'
     return srcs
 
@@ -101,14 +105,14 @@ def record(src):
         if fn == 'sub':
             n, m = src['n'], src['m']
             if src['gen'] and not src.get('host'):
-                c = ar.generate_sub_two_numbers(n, m, big_endian=big)
+                c = ar.generate_sub_two_numbers(n, m, **A.bkw(big))
                 pre = _fresh_pre(c)
                 a, b, res, om = list(c.inputs[:n]), list(c.inputs[n:]), list(c.outputs), 'set'
             else:
                 c, ops = A.make_host(src, n + m)
                 pre = project(c)
                 a, b = ops[:n], ops[n:]
-                res, om = ar.add_sub_two_numbers(c, list(a), list(b), big_endian=big), 'same'
+                res, om = ar.add_sub_two_numbers(c, list(a), list(b), **A.bkw(big)), 'same'
             checks = [{'op': 'sub', 'a': A.le(a, big), 'b': A.le(b, big), 'out': A.le(res, big), 'borrow': ''}]
             return A.finish(case, c, pre, rng, res, checks, om, res if om == 'set' else [])
         if fn == 'subc':
@@ -116,7 +120,7 @@ def record(src):
             c, ops = A.make_host(src, n + m)
             pre = project(c)
             a, b = ops[:n], ops[n:]
-            res, flag = ar.add_subtract_with_compare(c, list(a), list(b), big_endian=big)
+            res, flag = ar.add_subtract_with_compare(c, list(a), list(b), **A.bkw(big))
             checks = [{'op': 'subc', 'a': A.le(a, big), 'b': A.le(b, big), 'out': A.le(res, big), 'borrow': flag}]
             return A.finish(case, c, pre, rng, list(res) + [flag], checks, 'same', [])
         if fn == 'alias':
@@ -126,20 +130,20 @@ def record(src):
             a, b = list(ops[:n]), list(ops[n:])
             a0, b0 = list(a), list(b)
             if which == 'sub':
-                r1 = ar.add_sub_two_numbers(c, a, a, big_endian=big)
-                r2 = ar.add_sub_two_numbers(c, a, b, big_endian=big)
+                r1 = ar.add_sub_two_numbers(c, a, a, **A.bkw(big))
+                r2 = ar.add_sub_two_numbers(c, a, b, **A.bkw(big))
                 checks = [{'op': 'sub', 'a': A.le(a0, big), 'b': A.le(a0, big), 'out': A.le(r1, big), 'borrow': ''},
                           {'op': 'sub', 'a': A.le(a0, big), 'b': A.le(b0, big), 'out': A.le(r2, big), 'borrow': ''}]
                 ret = list(r1) + list(r2)
             elif which == 'subc':
-                r1, f1 = ar.add_subtract_with_compare(c, a, a, big_endian=big)
-                r2, f2 = ar.add_subtract_with_compare(c, a, b, big_endian=big)
+                r1, f1 = ar.add_subtract_with_compare(c, a, a, **A.bkw(big))
+                r2, f2 = ar.add_subtract_with_compare(c, a, b, **A.bkw(big))
                 checks = [{'op': 'subc', 'a': A.le(a0, big), 'b': A.le(a0, big), 'out': A.le(r1, big), 'borrow': f1},
                           {'op': 'subc', 'a': A.le(a0, big), 'b': A.le(b0, big), 'out': A.le(r2, big), 'borrow': f2}]
                 ret = list(r1) + list(r2) + [f1, f2]
             else:
-                q1, m1 = ar.add_div_mod(c, a, a, big_endian=big)
-                q2, m2 = ar.add_div_mod(c, a, b, big_endian=big)
+                q1, m1 = ar.add_div_mod(c, a, a, **A.bkw(big))
+                q2, m2 = ar.add_div_mod(c, a, b, **A.bkw(big))
                 checks = [{'op': 'divmod', 'a': A.le(a0, big), 'b': A.le(a0, big), 'q': A.le(q1, big), 'r': A.le(m1, big)},
                           {'op': 'divmod', 'a': A.le(a0, big), 'b': A.le(b0, big), 'q': A.le(q2, big), 'r': A.le(m2, big)}]
                 ret = list(q1) + list(m1) + list(q2) + list(m2)
@@ -147,7 +151,7 @@ def record(src):
         if fn == 'divmod':
             n = src['n']
             if src['gen'] and not src.get('host'):
-                c = ar.generate_div_mod(n, big_endian=big)
+                c = ar.generate_div_mod(n, **A.bkw(big))
                 pre = _fresh_pre(c)
                 a, b = list(c.inputs[:n]), list(c.inputs[n:])
                 outs = list(c.outputs)
@@ -156,21 +160,21 @@ def record(src):
                 c, ops = A.make_host(src, 2 * n)
                 pre = project(c)
                 a, b = ops[:n], ops[n:]
-                q, r = ar.add_div_mod(c, list(a), list(b), big_endian=big)
+                q, r = ar.add_div_mod(c, list(a), list(b), **A.bkw(big))
                 om = 'same'
             checks = [{'op': 'divmod', 'a': A.le(a, big), 'b': A.le(b, big), 'q': A.le(q, big), 'r': A.le(r, big)}]
             return A.finish(case, c, pre, rng, list(q) + list(r), checks, om, list(q) + list(r) if om == 'set' else [])
         if fn == 'sqrt':
             n = src['n']
             if src['gen'] and not src.get('host'):
-                c = ar.generate_sqrt(n, big_endian=big)
+                c = ar.generate_sqrt(n, **A.bkw(big))
                 pre = _fresh_pre(c)
                 a, res, om = list(c.inputs), list(c.outputs), 'set'
             else:
                 c, ops = A.make_host(src, n)
                 pre = project(c)
                 a = ops
-                res, om = ar.add_sqrt(c, list(a), big_endian=big), 'same'
+                res, om = ar.add_sqrt(c, list(a), **A.bkw(big)), 'same'
             checks = [{'op': 'sqrt', 'a': A.le(a, big), 'out': A.le(res, big)}]
             return A.finish(case, c, pre, rng, res, checks, om, res if om == 'set' else [])
         if fn == 'eq':
@@ -191,7 +195,7 @@ def record(src):
         if fn == 'inc':
             il, ol = src['il'], src['ol']
             if src['gen']:
-                c = gg.generate_plus_one(il, ol, big_endian=big)
+                c = gg.generate_plus_one(il, ol, **A.bkw(big))
                 pre = _fresh_pre(c)
                 a, res, om, outl = list(c.inputs), list(c.outputs), 'set', list(c.outputs)
             else:
@@ -203,7 +207,7 @@ def record(src):
                 if src.get('given_labels'):
                     given = [f'res_{j}' for j in range(ol)]
                     kw['result_labels'] = list(given)
-                res = gg.add_plus_one(c, list(a), add_outputs=src['add_outputs'], big_endian=big, **kw)
+                res = gg.add_plus_one(c, list(a), add_outputs=src['add_outputs'], **A.bkw(big), **kw)
                 if given is None:
                     ol = len(res)
                 om = 'appendset' if src['add_outputs'] else 'same'
